@@ -8,6 +8,7 @@ import Circomspect.Model.Dominators
 import Circomspect.Model.CfgLift
 import Circomspect.Spec.Cfg
 import Circomspect.Spec.Trace
+import Circomspect.Model.UniqueVars
 import Driver.Sexp
 
 namespace Driver
@@ -263,6 +264,93 @@ def tracesCmd (rest : String) : String :=
     | _, _ => "bad-op"
   | _ => "bad-op"
 
+/-- an occurrence met by the traversal of `unique_vars.rs`: (is declaration, source range, name) -/
+structure Occ where
+  isDecl : Bool
+  loc : CfgLift.Loc
+  name : String
+
+inductive Ev | enter | exit | occ (o : Occ)
+
+mutual
+/-- `visit_expression` of unique_vars.rs: variable occurrences in traversal order -/
+partial def exprEvents (e : Sexp) : List Ev :=
+  match e with
+  | .list (.atom "var" :: m :: .atom n :: .list acc :: _) => .occ ⟨false, locOf m, n⟩ :: acc.flatMap accessEvents
+  | .list (.atom "infix" :: _ :: _ :: l :: r :: _) => exprEvents l ++ exprEvents r
+  | .list (.atom "prefix" :: _ :: _ :: r :: _) => exprEvents r
+  | .list (.atom "switch" :: _ :: c :: t :: f :: _) => exprEvents c ++ exprEvents t ++ exprEvents f
+  | .list (.atom "par" :: _ :: r :: _) => exprEvents r
+  | .list (.atom "call" :: _ :: _ :: .list args :: _) => args.flatMap exprEvents
+  | .list (.atom "arr" :: _ :: .list vs :: _) => vs.flatMap exprEvents
+  | .list (.atom "tuple" :: _ :: .list vs :: _) => vs.flatMap exprEvents
+  | .list (.atom "anon" :: m :: _ :: .list ps :: .list ss :: names :: _) =>
+    ps.flatMap exprEvents ++ ss.flatMap exprEvents ++
+      (match names with
+       | .list ns => ns.filterMap (fun n => match n with
+           | .list [_, .atom nm] => some (.occ ⟨false, locOf m, nm⟩) | _ => none)
+       | _ => [])
+  | _ => []
+partial def accessEvents (a : Sexp) : List Ev :=
+  match a with
+  | .list [.atom "idx", e] => exprEvents e
+  | _ => []
+end
+
+/-- `visit_statement` of unique_vars.rs -/
+partial def stmtEvents (s : Sexp) : List Ev :=
+  match s with
+  | .list (.atom "decl" :: m :: _ :: .atom n :: .list dims :: _) => dims.flatMap exprEvents ++ [.occ ⟨true, locOf m, n⟩]
+  | .list (.atom "sub" :: m :: .atom v :: .list acc :: _ :: rhe :: _) =>
+    .occ ⟨false, locOf m, v⟩ :: (acc.flatMap accessEvents ++ exprEvents rhe)
+  | .list (.atom "msub" :: _ :: l :: _ :: r :: _) => exprEvents l ++ exprEvents r
+  | .list (.atom "log" :: _ :: .list args :: _) =>
+    args.flatMap (fun a => match a with | .list [.atom "exp", e] => exprEvents e | _ => [])
+  | .list (.atom "ret" :: _ :: e :: _) => exprEvents e
+  | .list (.atom "ceq" :: _ :: l :: r :: _) => exprEvents l ++ exprEvents r
+  | .list (.atom "assert" :: _ :: e :: _) => exprEvents e
+  | .list (.atom "init" :: _ :: _ :: .list cs :: _) => cs.flatMap stmtEvents
+  | .list (.atom "while" :: _ :: c :: b :: _) => exprEvents c ++ stmtEvents b
+  | .list (.atom "blk" :: _ :: .list cs :: _) => [.enter] ++ cs.flatMap stmtEvents ++ [.exit]
+  | .list (.atom "ite" :: _ :: c :: t :: e :: _) =>
+    exprEvents c ++ stmtEvents t ++ (match e with | .atom _ => [] | e => stmtEvents e)
+  | _ => []
+
+/-- `uniq <ast def>`: per occurrence `start-end:name:suffix:declaration` (model key and
+    specified resolution), the shadowing pairs of model and specification, and the
+    parameter-collision flag -/
+def uniqCmd (rest : String) : String :=
+  match Sexp.parse rest with
+  | some (.list [.atom "def", _, _, .list params, ploc, body]) =>
+    let ps := params.filterMap Sexp.str?
+    let evs := stmtEvents body
+    -- occurrences are numbered in traversal order (as the model does); parameters take ids 0..
+    let np := ps.length
+    let (events, occs, _) := evs.foldl (fun (acc : List UniqueVars.Event × List (Nat × Occ) × Nat) e =>
+      let (es, os, k) := acc
+      match e with
+      | .enter => (es ++ [UniqueVars.Event.enter], os, k)
+      | .exit => (es ++ [UniqueVars.Event.exit], os, k)
+      | .occ o => (es ++ [if o.isDecl then UniqueVars.Event.decl o.name else UniqueVars.Event.use o.name], os ++ [(k, o)], k + 1))
+      (([] : List UniqueVars.Event), ([] : List (Nat × Occ)), np)
+    let outs := (UniqueVars.rename ps events).filter (fun o => decide (np ≤ o.id))
+    let pev := UniqueVars.paramEvents ps
+    let res := ScopeSpec.resolve ScopeSpec.St.init (pev ++ events)
+    let locStr (id : Nat) : String :=
+      if id < np then s!"p{(locOf ploc).1}-{(locOf ploc).2}" else
+      match occs.find? (fun e => e.1 == id) with
+      | some (_, o) => s!"{o.loc.1}-{o.loc.2}"
+      | none => "?"
+    let line (o : UniqueVars.Out) : String :=
+      let d := match res.find? (fun r => r.1 == o.id) with
+        | some (_, some d) => locStr d ++ "#" ++ toString d
+        | _ => "-"
+      s!"{locStr o.id}:{o.name}:{match o.suffix with | some k => toString k | none => "-"}:{d}"
+    let shadowM := outs.filterMap (fun o => o.shadows.map (fun d => s!"{locStr o.id}>{locStr d}"))
+    let shadowS := (ScopeSpec.shadowing ScopeSpec.St.init (pev ++ events)).filter (fun e => decide (np ≤ e.1)) |>.map (fun e => s!"{locStr e.1}>{locStr e.2}")
+    s!"{" ".intercalate (outs.map line)} # {" ".intercalate shadowM} # {" ".intercalate shadowS} # {UniqueVars.paramCollision ps}"
+  | _ => "bad-op"
+
 def showIStmt : CfgLift.IStmt → String
   | .simple l => s!"s{l.1}-{l.2}"
   | .branch l t f => s!"i{l.1}-{l.2}:{t}:{match f with | some f => toString f | none => "-"}"
@@ -296,6 +384,7 @@ def handle (line : String) : String :=
   if line.startsWith "cfglift " then cfgliftCmd (line.drop 8).toString else
   if line.startsWith "wfcheck " then wfcheckCmd (line.drop 8).toString else
   if line.startsWith "traces " then tracesCmd (line.drop 7).toString else
+  if line.startsWith "uniq " then uniqCmd (line.drop 5).toString else
   match line.splitOn " " with
   | "field" :: args => fieldCmd args
   | "fieldspec" :: args => fieldSpecCmd args
